@@ -69,7 +69,7 @@ class REDPort(Port):
             self.average_queue_size * (1 - alpha) + current_queue_size * alpha
         )
 
-        if self.average_queue_size >= self.qlimit:
+        if self.qlimit is not None and self.average_queue_size >= self.qlimit:
             self.packets_dropped += 1
             if self.debug:
                 print(
